@@ -96,9 +96,10 @@ theorem len_stmt (lay : List Nat) : ∀ (s : SStmt) (sfx : String) (fd sd off : 
     simp only [compileStmt, sizeStmt, List.length_append, List.length_cons, List.length_nil]
     rw [flatMap_const_len _ 2 (fun _ => rfl)] <;> (try omega)
   | .read vars p, _, _, _, _ => by
-    simp only [compileStmt, sizeStmt, List.length_append, List.length_cons, List.length_nil,
-      List.length_map, List.length_zipIdx]
-    rw [flatMap_const_len _ 3 (fun _ => rfl), flatMap_const_len _ 3 (fun _ => rfl)] <;> (try omega)
+    simp only [compileStmt, sizeStmt]
+    split
+    · rfl
+    · exact flatMap_const_len _ 11 (fun _ => rfl) vars
   | .ifBlock c thn elifs hasElse els p, sfx, fd, sd, off => by
     simp only [compileStmt, sizeStmt, List.length_append, List.length_singleton, len_stmt lay thn,
       len_elifs lay elifs, len_expr]
